@@ -294,7 +294,7 @@ class MQTTBaseProtocol(Protocol):
         self._cleanStart = True # No session by default
         self._pingReq       = PINGREQ() 
         self._pingReq.timer = None
-        self._pingReq.alarm = None
+        self._pingReq.alarms = []   # one deadline per PINGREQ not yet answered
         self._pingReq.pdu   = self._pingReq.encode()    # reuses the same PDU over and over again
         self.onDisconnection = None # callback to be invoked
 
@@ -514,9 +514,9 @@ class MQTTBaseProtocol(Protocol):
         if self._pingReq.timer:
             self._pingReq.timer.stop()
             self._pingReq.timer = None
-        if self._pingReq.alarm:
-            self._pingReq.alarm.cancel()
-            self._pingReq.alarm = None
+        for alarm in self._pingReq.alarms:
+            alarm.cancel()
+        self._pingReq.alarms = []
         self.doConnectionLost(reason)
         self.state = self.IDLE
         # The disconnect callback is invoked in another reactor loop cycle
@@ -647,9 +647,10 @@ class MQTTBaseProtocol(Protocol):
         Handles PINGRESP packet from the server
         '''
         log.debug("<== {packet:7}", packet="PINGRESP")
-        if self._pingReq.alarm is not None:
-            self._pingReq.alarm.cancel()
-            self._pingReq.alarm = None
+        # The broker is alive: every outstanding PINGREQ is answered
+        for alarm in self._pingReq.alarms:
+            alarm.cancel()
+        self._pingReq.alarms = []
 
 
     # ---------------------------
@@ -710,10 +711,12 @@ class MQTTBaseProtocol(Protocol):
         '''
         def doPingError():
             log.warn("--- {packet:7} Timeout", packet="PINGREQ")
+            self._pingReq.alarms.remove(alarm)
             self.transport.abortConnection()
         log.debug("==> {packet:7}", packet="PINGREQ")
         self.transport.write(self._pingReq.pdu)
-        self._pingReq.alarm = self.callLater(self._pingReq.keepalive, doPingError)
+        alarm = self.callLater(self._pingReq.keepalive, doPingError)
+        self._pingReq.alarms.append(alarm)
 
     # ------------------------------------------------------------------------
 
